@@ -954,6 +954,7 @@ class APE:
                 fr.subst[pn] = path
             else:
                 st.env[fr.prefix + pn] = av
+                st.events.append(Event("bind", call, None, fr.prefix + pn, av))      # a by-value parameter gets its argument's value
         for nm in g._local_names:
             self.localnames.add(fr.prefix + nm)
         st.events.append(Event("enter", call, None, g.name, argv))
@@ -1042,6 +1043,20 @@ class APE:
             _GENLINES[id(self.prog)] = cache
         return len(cache.get((g.unit, g.file, g.line), ())) > 1
 
+    def _callfree(self, B):
+        c = B.rawcond if B.rawcond is not None else B.cond
+        if c is None:
+            return True
+        r = getattr(B, "_callfree", None)
+        if r is None:
+            from .facts import walk as _w
+            r = not any(x.get("k") == "CallExpr" for x in _w(c))
+            try:
+                B._callfree = r
+            except AttributeError:
+                pass
+        return r
+
     def _loops(self, f):
         c = self._loopcache.get(id(f))
         if c is None:
@@ -1110,7 +1125,7 @@ class APE:
                 lop = B.term
             if st.prob is not None and st.prob == (act, bid):
                 st.prob = None
-                if not isinstance(lit, bool):
+                if not isinstance(lit, bool) or not self._callfree(B):
                     self._finish(st, "cut")
                     return
                 for b_ in self._loops(f)[bid]:
@@ -1129,7 +1144,9 @@ class APE:
                 if tgt is None:
                     self._finish(st, "cut")
                 else:
-                    st.det = True   # deterministic continuation: constant-trip loops unroll fully
+                    # deterministic continuation: constant-trip loops unroll fully - but only when the condition is arithmetic on
+                    # variables (a call evaluated in line yields a constant on each of its paths without the trip being constant)
+                    st.det = self._callfree(B)
                     stack.append((tgt, st, 0, 0))
                 return
             atom, acc, nodes = lit
